@@ -242,22 +242,33 @@ def cli_part(check, bad, good):
     picks = [(c, True) for c in rng.sample(bad, min(nb, len(bad)))] + [(c, False) for c in rng.sample(good, min(nb // 2, len(good)))]
     for idx, (c, is_bad) in enumerate(picks):
         lang = LANGS[idx % len(LANGS)]
+        multi = is_bad and idx % 2 == 1
         with Scratch() as sc:
-            sc.write("proj/src/lib.rs", c["text"])
-            sc.write("proj/src/ok.rs", "#[typeshare]\npub struct Fine { pub a: u8 }\n")
-            out = sc.path("out." + EXT[lang])
-            with open(out, "w") as f:
-                f.write("PRE-EXISTING\n")
+            if multi:
+                # folder-output mode: the offending crate sorts before (and, next case, after) a clean one
+                bad_crate, ok_crate = (("aaa", "zzz") if idx % 4 == 1 else ("zzz", "aaa"))
+                sc.write("proj/%s/src/lib.rs" % bad_crate, c["text"])
+                sc.write("proj/%s/src/ok.rs" % ok_crate, "#[typeshare]\npub struct Fine { pub a: u8 }\n")
+                out = sc.path("outdir")
+                os.makedirs(out)
+                with open(os.path.join(out, "keep.txt"), "w") as f:
+                    f.write("PRE-EXISTING\n")
+            else:
+                sc.write("proj/src/lib.rs", c["text"])
+                sc.write("proj/src/ok.rs", "#[typeshare]\npub struct Fine { pub a: u8 }\n")
+                out = sc.path("out." + EXT[lang])
+                with open(out, "w") as f:
+                    f.write("PRE-EXISTING\n")
             before = snapshot(sc.dir)
             # both arrival orders of the two per-file results at the collector (the offending file first / last)
             for order in (("0,1", "1,0") if is_bad else (None,)):
-                r = run_cli(["--lang", lang, "-o", out, sc.path("proj")] + lang_args(lang), cwd=sc.dir,
+                r = run_cli(["--lang", lang, "-d" if multi else "-o", out, sc.path("proj")] + lang_args(lang), cwd=sc.dir,
                             env={"TYPESHARE_VERIF_ORDER": order} if order else None)
                 if r["timed_out"] or r["rc"] == 0:
                     break
             after = snapshot(sc.dir)
             check.saw(("cli", lang, c["text"]), nontrivial=True)
-            check.count("cli-" + ("rejected" if is_bad else "skipped-twin"))
+            check.count("cli-" + ("rejected" if is_bad else "skipped-twin") + ("-multi-file" if multi else ""))
             if is_bad:
                 problems = []
                 if r["timed_out"]:
